@@ -1212,10 +1212,147 @@ def r6_cem(ck, repo, nf):
     ck.ob("R6-cem", q, "update-from-evaluated-samples", ok, f"`{short(fcall, 50)}`; `{short(uc, 70)}`", "" if ok else "the update must use the fitness of the very samples it ranks (the population drawn in this iteration)", loc(mi, uc))
 
 
+# ---- R2: non-finite fitness (the NaN world of the incumbent table) ----------------------------------------------------------------------------
+_NAN_PROPAGATE = {"float", "sum", "abs", "asarray", "array", "squeeze", "item", "negative", "float32", "float64", "mean", "ravel", "copy"}
+_NAN_ANY = {"minimum", "maximum", "add", "subtract", "multiply", "divide"}        # numpy / jax.numpy: NaN if any operand is NaN
+_NAN_SKIP = {"fmin", "fmax", "nanmin", "nanmax", "nan_to_num", "nansum"}             # these remove the NaN (result unknown / not NaN)
+
+
+def r2_nan_candidate(ck, repo, nf):
+    """The fitness sequence may contain non-finite values.  A NaN candidate is not better than anything: the documented comparison
+    `candidate <= best` is False for it and the incumbent is kept as a whole.  Decided by abstract interpretation of set_evaluation_feedback
+    over {NaN, not NaN, unknown} with the feedback = NaN: arithmetic propagates NaN, every comparison with a NaN operand is False (`!=` True),
+    the builtin min / max return their FIRST argument unless the second compares smaller / larger (so `min(nan, x)` is nan, `min(x, nan)` is
+    x), numpy's minimum / maximum propagate.  Evidence of a violation: on a path of that world best_fitness receives a NaN value, or
+    best_params receives a value read from the population."""
+    q = CM + "set_evaluation_feedback"
+    fn = repo.func(q)
+    mi = fn._module
+    params = param_names(fn)
+    ck.need(len(params) >= 4, f"{q}: signature changed (anchor vanished)")
+    CONF, ST, POP, FB = params[:4]
+    if any(isinstance(x, (ast.For, ast.While, ast.Try, ast.With, ast.Match)) for x in ast.walk(fn)):
+        raise AnalysisError(f"{q}: loops / try / with / match in the feedback routine (the NaN world is not read: unrecognised form)")
+    NAN, FIN, UNK = "nan", "fin", "unk"
+    found, n_paths = [], [0]
+
+    def key(e):
+        return dotted(e) if isinstance(e, (ast.Name, ast.Attribute)) else None
+
+    def ev(e, st):
+        if isinstance(e, ast.Constant):
+            return FIN if isinstance(e.value, (int, float, bool)) and e.value == e.value else UNK
+        if isinstance(e, (ast.Name, ast.Attribute)):
+            k_ = key(e)
+            if k_ in st:
+                return st[k_]
+            return NAN if k_ == FB else UNK
+        if isinstance(e, ast.UnaryOp) and isinstance(e.op, (ast.USub, ast.UAdd)):
+            return ev(e.operand, st)
+        if isinstance(e, ast.BinOp):
+            a, b = ev(e.left, st), ev(e.right, st)
+            return NAN if NAN in (a, b) else FIN if (a, b) == (FIN, FIN) else UNK
+        if isinstance(e, ast.IfExp):
+            t = truth(e.test, st)
+            if t is None:
+                a, b = ev(e.body, st), ev(e.orelse, st)
+                return a if a == b else UNK
+            return ev(e.body if t else e.orelse, st)
+        if isinstance(e, ast.Call) and isinstance(e.func, (ast.Name, ast.Attribute)) and not e.keywords and not any(isinstance(a, ast.Starred) for a in e.args):
+            name = (dotted(e.func) or "").split(".")[-1]
+            args = [ev(a, st) for a in e.args]
+            recv = ev(e.func.value, st) if isinstance(e.func, ast.Attribute) and not isinstance(e.func.value, ast.Name) else None
+            if isinstance(e.func, ast.Attribute) and isinstance(e.func.value, ast.Name) and key(e.func.value) in st:
+                recv = st[key(e.func.value)]          # x.sum(), x.item() on a tracked local
+            if name in _NAN_SKIP:
+                return UNK
+            if isinstance(e.func, ast.Name) and name in ("min", "max") and len(args) == 2:
+                # Python: min(a, b) is a unless b < a; a comparison with NaN is False
+                return NAN if args[0] == NAN else args[0] if args[1] == NAN else (FIN if args == [FIN, FIN] else UNK)
+            if name in _NAN_ANY and len(args) == 2:
+                return NAN if NAN in args else FIN if args == [FIN, FIN] else UNK
+            if name in _NAN_PROPAGATE:
+                src = [x for x in args + ([recv] if recv is not None else [])]
+                if len(src) == 1:
+                    return src[0]
+            return UNK
+        return UNK
+
+    def truth(t, st):
+        """True / False when the NaN operand decides the test, None otherwise."""
+        if isinstance(t, ast.UnaryOp) and isinstance(t.op, ast.Not):
+            r = truth(t.operand, st)
+            return None if r is None else not r
+        if isinstance(t, ast.BoolOp):
+            rs = [truth(v, st) for v in t.values]
+            if isinstance(t.op, ast.And):
+                return False if False in rs else (True if all(r is True for r in rs) else None)
+            return True if True in rs else (False if all(r is False for r in rs) else None)
+        if isinstance(t, ast.Compare) and len(t.ops) == 1:
+            a, b = ev(t.left, st), ev(t.comparators[0], st)
+            if NAN in (a, b):
+                if isinstance(t.ops[0], (ast.Lt, ast.LtE, ast.Gt, ast.GtE, ast.Eq)):
+                    return False
+                if isinstance(t.ops[0], ast.NotEq):
+                    return True
+            return None
+        if isinstance(t, ast.Call) and (dotted(t.func) or "").split(".")[-1] in ("isnan",) and len(t.args) == 1:
+            a = ev(t.args[0], st)
+            return True if a == NAN else False if a == FIN else None
+        if isinstance(t, ast.Call) and (dotted(t.func) or "").split(".")[-1] in ("isfinite",) and len(t.args) == 1:
+            a = ev(t.args[0], st)
+            return False if a == NAN else True if a == FIN else None
+        return None
+
+    def run_block(stmts, st, trail):
+        for i, s_ in enumerate(stmts):
+            if isinstance(s_, ast.If):
+                t = truth(s_.test, st)
+                rest = stmts[i + 1:]
+                for lab in ([t] if t is not None else [True, False]):
+                    run_block((s_.body if lab else s_.orelse) + rest, dict(st), trail + [f"L{s_.lineno}: {short(s_.test, 50)} is {lab}" + (" (NaN operand)" if t is not None else "")])
+                return
+            if isinstance(s_, (ast.Return, ast.Raise)):
+                n_paths[0] += 1
+                return
+            tgts, val = [], None
+            if isinstance(s_, ast.Assign):
+                tgts, val = s_.targets, s_.value
+            elif isinstance(s_, ast.AnnAssign) and s_.value is not None:
+                tgts, val = [s_.target], s_.value
+            elif isinstance(s_, ast.AugAssign):
+                tgts, val = [s_.target], ast.BinOp(left=s_.target, op=s_.op, right=s_.value)
+            for t_ in tgts:
+                k_ = key(t_)
+                if isinstance(t_, (ast.Tuple, ast.List)):
+                    for el in t_.elts:
+                        if key(el):
+                            st[key(el)] = UNK
+                    continue
+                if k_ is None:
+                    continue
+                v = ev(val, st)
+                st[k_] = v
+                if k_ == f"{ST}.best_fitness" and v == NAN:
+                    found.append((s_, "best_fitness receives the NaN fitness", trail + [f"L{s_.lineno}: {short(s_, 70)}"]))
+                if k_ == f"{ST}.best_params" and any(isinstance(x, ast.Name) and x.id == POP for x in ast.walk(val)):
+                    found.append((s_, "best_params is replaced by the candidate although a NaN fitness is not better than the incumbent", trail + [f"L{s_.lineno}: {short(s_, 70)}"]))
+        n_paths[0] += 1
+
+    run_block(list(fn.body), {}, [])
+    ck.need(n_paths[0] >= 1, f"{q}: no path evaluated in the NaN world (unrecognised form)")
+    ok = not found
+    ck.ob("R2-incumbent", q, "nan-candidate-keeps-incumbent", ok, f"{n_paths[0]} path(s) evaluated with a NaN feedback; comparisons with NaN are False, builtin min/max keep their first argument",
+          "" if ok else f"with a NaN fitness {found[0][1]}: the next (worse) candidate then compares against NaN and the reported best is no longer the best candidate evaluated so far",
+          loc(mi, found[0][0]) if found else loc(mi, fn), found[0][2] if found else None)
+
+
+
 def run(ck, repo: Repo, tier: str):
     nf = NF(repo, inline_depth=2)
     ck.guard(r1_weights, ck, repo, nf)
     ck.guard(r2_feedback_table, ck, repo, nf)
+    ck.guard(r2_nan_candidate, ck, repo, nf)
     ck.guard(r2_train_loop, ck, repo, nf)
     ck.guard(r34_update, ck, repo, nf)
     ck.guard(r7_covariance, ck, repo, nf)
@@ -1225,6 +1362,11 @@ def run(ck, repo: Repo, tier: str):
 
 _C, _X = "rl_blox/algorithm/cmaes.py", "rl_blox/blox/cross_entropy_method.py"
 MUTANTS = [
+    # was listed as benign while the order model covered ordered reals only: `if candidate > best: return` falls through for a NaN candidate
+    {"id": "c16-early-keep-greater-than-lets-nan-through", "file": _C, "rule": "R2", "find": "    if fitness_k <= state.best_fitness:\n        state.best_fitness = fitness_k\n        state.best_fitness_it = state.it\n        state.best_params = population.samples[k]\n\n    state.it += 1",
+     "replace": "    it = state.it\n    state.it = it + 1\n    if fitness_k > state.best_fitness:\n        return\n    state.best_fitness = fitness_k\n    state.best_fitness_it = it\n    state.best_params = population.samples[k]"},
+    {"id": "c16-incumbent-min-first-arg-nan", "file": _C, "rule": "R2", "find": '    if fitness_k <= state.best_fitness:\n        state.best_fitness = fitness_k\n', "replace": '    state.best_fitness = min(fitness_k, state.best_fitness)\n    if state.best_fitness == fitness_k:\n'},
+    {"id": "c16-incumbent-not-greater", "file": _C, "rule": "R2", "find": "    if fitness_k <= state.best_fitness:", "replace": "    if not fitness_k > state.best_fitness:"},
     {"id": "c16-neg-update-var-scale", "file": _C, "rule": "R7", "find": "        neg_update /= sigma\n", "replace": "        neg_update /= state.var\n"},
     {"id": "c16-neg-update-centre", "file": _C, "rule": "R7", "find": "        neg_update -= state.last_mean\n", "replace": "        neg_update -= state.mean\n"},
     {"id": "c16-rank-one-asymmetric", "file": _C, "rule": "R7", "find": "    rank_one_update = jnp.outer(state.pc, state.pc)", "replace": "    rank_one_update = jnp.outer(state.pc, state.ps)"},
@@ -1265,6 +1407,7 @@ MUTANTS = [
     {"id": "c16-cap-removed-product", "file": _C, "rule": "R4", "find": "    state.var = state.var * jnp.exp(min((0.6, log_step_size_update))) ** 2", "replace": "    step = jnp.exp(log_step_size_update)\n    state.var = state.var * step * step"},
 ]
 BENIGN = [
+    {"id": "c16-b-incumbent-min-best-first", "file": _C, "find": '    if fitness_k <= state.best_fitness:\n        state.best_fitness = fitness_k\n', "replace": '    previous_best = state.best_fitness\n    state.best_fitness = min(state.best_fitness, fitness_k)\n    if fitness_k <= previous_best:\n'},
     {"id": "c16-b-scatter-broadcast", "file": _C, "find": "    rank_mu_update = noise.T.dot(jnp.diag(config.weights)).dot(noise)", "replace": "    rank_mu_update = (config.weights[:, jnp.newaxis] * noise).T.dot(noise)"},
     {"id": "c16-b-incumbent-copied", "file": _C, "edits": [("            population = Population.create(\n                samples=sample_population(config, state)\n            )\n", "            np.copyto(population.samples, sample_population(config, state))\n            population.fitness[:] = [np.inf] * len(population.fitness)\n"),
         ("        return cls(samples=samples, fitness=[np.inf] * len(samples))", "        return cls(samples=np.array(samples), fitness=[np.inf] * len(samples))"), ("        state.best_params = population.samples[k]", "        state.best_params = np.array(population.samples[k])")]},
@@ -1273,7 +1416,7 @@ BENIGN = [
     {"id": "c16-b-flatten-call", "file": _C, "nth": 1, "find": "    leaves = jax.tree_util.tree_leaves(state)\n    treedef = jax.tree_util.tree_structure(state)\n", "replace": "    leaves, treedef = jax.tree_util.tree_flatten(state)\n"},
     {"id": "c16-b-cem-kwargs", "file": _X, "find": "        mean, var = cem_update(samples, f, mean, var, n_elite, alpha)", "replace": "        mean, var = cem_update(samples=samples, fitness=fitness_function(samples), mean=mean, var=var, n_elite=n_elite, alpha=alpha)"},
     {"id": "c16-b-early-keep", "file": _C, "find": "    if fitness_k <= state.best_fitness:\n        state.best_fitness = fitness_k\n        state.best_fitness_it = state.it\n        state.best_params = population.samples[k]\n\n    state.it += 1",
-     "replace": "    it = state.it\n    state.it = it + 1\n    if fitness_k > state.best_fitness:\n        return\n    state.best_fitness = fitness_k\n    state.best_fitness_it = it\n    state.best_params = population.samples[k]"},
+     "replace": "    it = state.it\n    state.it = it + 1\n    if not (fitness_k <= state.best_fitness):\n        return\n    state.best_fitness = fitness_k\n    state.best_fitness_it = it\n    state.best_params = population.samples[k]"},
     {"id": "c16-b-lt", "file": _C, "find": "    if fitness_k <= state.best_fitness:", "replace": "    if fitness_k < state.best_fitness:"},
     {"id": "c16-b-var-square", "file": _C, "find": "    state.var = state.var * jnp.exp(min((0.6, log_step_size_update))) ** 2", "replace": "    step = jnp.exp(min((0.6, log_step_size_update)))\n    state.var = state.var * step**2"},
     # refactoring kinds the rules were made tolerant to (audit)
